@@ -28,6 +28,9 @@ Next ==
                  ELSE Check(queued[id] \in req2, l, "URL that was queued and not finished is not crawled again after the restart id=" \o id)
             /\ Check(\A i \in 1..Len(e.rows) : e.rows[i].status # "CLAIMED", l, "a row stays stranded as handed-out (CLAIMED) after the restarted crawl went idle")
             /\ UNCHANGED <<phase, queued, fin1, req2, caps>>
+       [] e.ev = "init.reset" ->   \* the restart step alone, called right after the claim (no second in between)
+            /\ Check(~HasKey(e, "err") /\ e.still_claimed = <<>>, l, "a row handed out just before the restart stays handed-out (CLAIMED) after the restart step")
+            /\ UNCHANGED <<phase, queued, fin1, req2, caps>>
        [] OTHER -> UNCHANGED <<phase, queued, fin1, req2, caps>>
   /\ l' = l + 1
 Spec == Init /\ [][Next]_vars
